@@ -171,7 +171,7 @@ def c19_2(ctx: Ctx) -> RuleResult:
         if explicit_ok:
             r_ = rets[0]
             cond = parent(r_)
-            ct = X.at(get, cond.test) if isinstance(cond, ast.If) else ("const", None)
+            ct = X.value_at(get, cond.test) if isinstance(cond, ast.If) else ("const", None)
             rv = X.at(get, r_.value)
             explicit_ok = (
                 ct[0] == "bool" and ct[1] == "and" and ct[2][0] == rv
@@ -185,7 +185,7 @@ def c19_2(ctx: Ctx) -> RuleResult:
         disc_ok = iter_ok and len(rets) == 1
         if disc_ok:
             cond = parent(rets[0])
-            ct = X.at(get, cond.test) if isinstance(cond, ast.If) else ("const", None)
+            ct = X.value_at(get, cond.test) if isinstance(cond, ast.If) else ("const", None)
             rv = X.at(get, rets[0].value)
             conj = list(ct[2]) if ct[0] == "bool" and ct[1] == "and" else [ct]
             has_flag = any(d[0] == "attr" and d[2] == "allows_discovery" and d[1] == rv for d in conj)
